@@ -169,7 +169,7 @@ pub enum Alt {
     /// (0: deviceKeyInfo, 1: deviceKey, 2: docType, 3: valueDigests): ciborium still finds the member
     MsoNameAsBytes(u8),
     /// two mDL documents: the first authentic but disclosing only the AAMVA namespace, the second with altered core items
-    DocumentSplit,
+    DocumentSplit(u8),
     /// device signature bytes that are not a 64-byte r||s in range: 63, 65, 32, 0 bytes, 64 zero bytes
     DevSigShape(u8),
 }
@@ -347,9 +347,16 @@ pub fn apply(alt: &Alt, sc: &Scene, pt: &mut Value, rng: &mut StdRng) {
                 if let Some(i) = pos { p[i] ^= 0x20; }
             }
         }
-        Alt::DocumentSplit => {
+        Alt::DocumentSplit(k) => {
+            // the first (authentic) document: 0 = core namespace removed, 1 = nameSpaces null, 2 = nameSpaces member absent
             let mut first = doc_mut(pt).clone();
-            if let Some(Value::Map(nss)) = map_get_mut(map_get_mut(&mut first, "issuerSigned").unwrap(), "nameSpaces") { nss.retain(|(k, _)| k.as_text() != Some(NS)); }
+            if let Some(Value::Map(isg)) = map_get_mut(&mut first, "issuerSigned") {
+                match k % 3 {
+                    0 => { if let Some((_, Value::Map(nss))) = isg.iter_mut().find(|(k, _)| k.as_text() == Some("nameSpaces")) { nss.retain(|(k, _)| k.as_text() != Some(NS)); } }
+                    1 => { if let Some((_, v)) = isg.iter_mut().find(|(k, _)| k.as_text() == Some("nameSpaces")) { *v = Value::Null; } }
+                    _ => isg.retain(|(k, _)| k.as_text() != Some("nameSpaces")),
+                }
+            }
             let core_idx = namespaces_mut(pt).iter().position(|(k, _)| k.as_text() == Some(NS)).unwrap_or(0);
             edit_item(pt, core_idx, 0, |m| { for (k, v) in m.iter_mut() { if k.as_text() == Some("elementValue") { *v = Value::Text("forged".into()); } } });
             let second = doc_mut(pt).clone();
@@ -604,7 +611,7 @@ pub fn c03_alts(rng: &mut StdRng, thorough: bool) -> Vec<Alt> {
     v
 }
 pub fn c04_alts(rng: &mut StdRng, thorough: bool) -> Vec<Alt> {
-    let mut v = vec![Alt::None, Alt::ItemMove, Alt::ItemInject, Alt::ItemDuplicateOtherNs, Alt::NamespaceRename, Alt::DocumentTwice(true), Alt::DocumentTwice(false), Alt::DocumentSplit];
+    let mut v = vec![Alt::None, Alt::ItemMove, Alt::ItemInject, Alt::ItemDuplicateOtherNs, Alt::NamespaceRename, Alt::DocumentTwice(true), Alt::DocumentTwice(false), Alt::DocumentSplit(0), Alt::DocumentSplit(1), Alt::DocumentSplit(2)];
     let n = if thorough { 40 } else { 4 };
     for _ in 0..n {
         let (a, b) = (rng.gen_range(0..2), rng.gen_range(0..6));
